@@ -370,6 +370,14 @@ func runC18(cw *caseWriter, tier string, seed uint64) {
 		}(j)
 	}
 	wg.Wait()
+	// leaderships that end inside runLeader's own start-up: the k-th StoreLogs of the server fails (monitored)
+	nf := 12
+	if tier != "quick" {
+		nf = 200
+	}
+	for i := 0; i < nf; i++ {
+		c18fault(cw, cw.tag("f"), i%4, 1+r.intn(3))
+	}
 	// cluster histories: the advertised-leader monitor over churn and election races
 	if tier == "quick" {
 		runScenarios(cw, 1, seed*100000, 40, 12)
@@ -377,5 +385,73 @@ func runC18(cw *caseWriter, tier string, seed uint64) {
 	} else {
 		runScenarios(cw, 1, seed*100000, 800, 12)
 		runScenarios(cw, 2, seed*100000, 800, 12)
+	}
+}
+
+// component 1118 (monitored only): a single-voter server whose log store refuses the failAt-th StoreLogs
+// (0 = the no-op of its first leadership, 1 = the first Apply, ...). Every leadership - also one that
+// ends before the no-op is stored - must be announced on NotifyCh by exactly one true followed by
+// exactly one false; at rest the last value equals the role; LeaderCh ends up with the latest value.
+func c18fault(cw *caseWriter, tag string, failAt int, rounds int) {
+	fails := make([]bool, failAt+1)
+	fails[failAt] = true
+	logs, stable, snaps := NewMapLogStore(fails), NewMapStable(), NewSnapStore()
+	logs.m[1] = &raft.Log{Index: 1, Term: 1, Type: raft.LogConfiguration, Data: raft.EncodeConfiguration(mkConfig([]srv{{0, 1, 1}}))}
+	stable.kvInt["CurrentTerm"] = 1
+	cf := baseConfig(nodeOpts{id: 1, trailing: 100, maxAppend: 4})
+	cf.CommitTimeout = 2 * time.Millisecond
+	s := &c18srv{notify: make(chan bool, 64)}
+	cf.NotifyCh = s.notify
+	_, s.trans = raft.NewInmemTransport(addrStr(1))
+	rf, err := raft.NewRaft(cf, &RecFSM{}, logs, stable, snaps, s.trans)
+	if err != nil {
+		return
+	}
+	s.r = rf
+	defer s.close()
+	var seq []bool
+	drain := func() {
+		for {
+			select {
+			case v := <-s.notify:
+				seq = append(seq, v)
+			default:
+				return
+			}
+		}
+	}
+	for k := 0; k < rounds+failAt+1; k++ {
+		if s.r.State() != raft.Leader {
+			s.r.VerifFireHeartbeatTimeout()
+			c17wait(func() bool { return s.r.State() == raft.Leader || len(s.notify) > 0 }, 2*time.Second)
+		}
+		if s.r.State() == raft.Leader {
+			s.r.Apply([]byte{byte(k)}, time.Second).Error()
+		}
+		s.settle(s.r.State())
+		drain()
+	}
+	s.settle(s.r.State())
+	drain()
+	cw.stats["c18_fault_runs"]++
+	leader := s.r.State() == raft.Leader
+	for i, v := range seq {
+		if v != (i%2 == 0) {
+			cw.monitor("C18", tag, "notifications-do-not-alternate-from-true", "store fails at StoreLogs #%d: NotifyCh delivered %v", failAt, seq)
+			break
+		}
+	}
+	if len(seq) > 0 && seq[len(seq)-1] != leader {
+		cw.monitor("C18", tag, "last-notification-differs-from-role-at-rest", "store fails at StoreLogs #%d: NotifyCh delivered %v, leader at rest: %v", failAt, seq, leader)
+	}
+	if len(seq) == 0 && leader {
+		cw.monitor("C18", tag, "leadership-gained-without-notification", "store fails at StoreLogs #%d", failAt)
+	}
+	select {
+	case v := <-s.r.LeaderCh():
+		if v != leader {
+			cw.monitor("C18", tag, "leaderch-not-latest", "store fails at StoreLogs #%d: LeaderCh holds %v, leader at rest: %v", failAt, v, leader)
+		}
+	default:
 	}
 }
